@@ -188,10 +188,11 @@ func (c *ccm) Seal(dst, nonce, plaintext, data []byte) []byte {
 	c.cipher.Encrypt(tagMask[:], counter[:])
 
 	counter[len(counter)-1] |= 1
+	// authenticate before encrypting: with dst = plaintext[:0] the encryption overwrites plaintext
+	tag := c.auth(nonce, plaintext, data, &tagMask)
+
 	ctr := cipher.NewCTR(c.cipher, counter[:])
 	ctr.XORKeyStream(out, plaintext)
-
-	tag := c.auth(nonce, plaintext, data, &tagMask)
 	copy(out[len(plaintext):], tag)
 
 	return ret
